@@ -47,7 +47,11 @@ def _check_uuid(uuid_str, spec_version, interoperability):
 
     uuid_obj = uuid.UUID(uuid_str)
 
-    ok = uuid_obj.variant == uuid.RFC_4122
+    # uuid.UUID() accepts several non-canonical spellings (braces, URN prefix,
+    # missing or misplaced hyphens); STIX identifiers use the canonical textual
+    # form only.
+    ok = str(uuid_obj) == uuid_str.lower()
+    ok = ok and uuid_obj.variant == uuid.RFC_4122
     if ok and spec_version == "2.0":
         ok = uuid_obj.version == 4
 
